@@ -293,6 +293,87 @@ def run(ctx):
                       "a statistics counter is changed only by fetch_add (or reset to 0 by clear): no read-then-write sequence that could lose a concurrent update", g.where(b))
     ctx.floor("R16.8", "atomic writes to statistics counters", n_w, 2)
 
+    # ---- R16.9 the read side: what a caller is told under a statistic's name is that statistic's counter -----------------
+    # (a) writer and reader address the counters the same way: every atomic operation of the statistics type that picks a
+    #     counter by a StatsType picks `entries[that value as usize]` - no arithmetic on the index
+    holder_fns = [g for n_, g in F.fns.items() if SM.holder and (outer_fn(F, g).rec.get("self_ty") or "").split("<")[0] == SM.holder]
+    n_idx = 0
+    for g in holder_fns:
+        if g.kind == "Closure":
+            continue
+        sel = {}
+        for p_ in ipaths(F, g, stop=lambda n_: False, depth=3):
+            for e in p_.events:
+                if not e.generic.startswith("std::sync::atomic::Atomic::<u64>::") or e.generic.endswith("::new"):
+                    continue
+                idxs = [x for x in subexprs(e.args[0]) if x[0] == "index"]
+                if not idxs:
+                    continue            # an element of an iteration over all counters (clear)
+                ix = idxs[0][2]
+                plain = not mentions(ix, lambda s_: s_[0] in ("binop", "unop") or (s_[0] == "call" and not s_[1].endswith("clone")))
+                sel.setdefault(e.generic.split("::")[-1], []).append((plain, ix))
+        for m_, L_ in sorted(sel.items()):
+            n_idx += 1
+            ctx.check(all(pl for pl, ix in L_), "R16.9", "%s|counter-index-is-the-statistic|%s" % (g.name, m_),
+                      "a counter is selected as entries[statistic as usize], the same way for bumps and reads (no offset, modulo or other arithmetic on the index; conversions through a private index type inlined)", g.where(), "; ".join(sorted({fmt(ix)[:80] for pl, ix in L_ if not pl})))
+    ctx.floor("R16.9", "counter selections by statistic", n_idx, 2)
+    # (b) the summary pairs every statistic of the table with the read of that same statistic, and the table lists every
+    #     variant of the statistics enum exactly once
+    from iters import elem_loops, ELEM
+    summ = [g for n_, g in F.fns.items() if g.kind != "Closure" and (g.rec.get("ret") or "").endswith("StatsSummary") and SM.holder and (g.rec.get("self_ty") or "").split("<")[0] == SM.holder]
+    for g in summ:
+        okp, n_pairs, tables = True, 0, set()
+        # the element loops of the summary function and of the private helpers of the same type it calls, whichever way they
+        # are written (for / while-with-index / map().collect() / extend(map()) / fold): each step pairs a statistic of the
+        # table with the counter read for that same statistic
+        hosts = [g] + [F.fns[t_["rpath"]] for b_, t_ in g.calls() if t_["res"] == "item" and t_.get("rlocal") and t_.get("rpath") in F.fns
+                       and (F.fns[t_["rpath"]].rec.get("self_ty") or "").split("<")[0] == SM.holder and t_["rpath"] != SM.prim_get and t_["rpath"] not in SM.read]
+        total_c = None
+        for h in hosts:
+            for L_ in elem_loops(F, h, stop=lambda x: x in F.fns and F.fns[x].kind != "Closure"):
+                E = None
+                for s_ in L_.sources:
+                    if s_[0] == "all" and s_[1][0] == "const" and isinstance(s_[1][1], str):
+                        tables.add(s_[1][1])
+                        E = ("elem",)
+                    if s_[0] == "range":
+                        total_c = s_[2]
+                pairs = []
+                for q in L_.bodies or []:
+                    for e in q.events:
+                        if e.generic.endswith("::insert") and len(e.args) >= 3:
+                            pairs.append((e.args[1], e.args[2]))
+                    r_ = q.ret
+                    if r_[0] == "agg" and r_[1] == "tuple" and len(r_[3]) == 2:
+                        pairs.append((r_[3][0][1], r_[3][1][1]))
+                for k_, v_ in pairs:
+                    k0 = strip_site(unclone_(k_))
+                    if E is None:
+                        # indexed form: the statistic is TABLE[i]
+                        ix = [x for x in subexprs(k0) if x[0] == "index" and x[1][0] == "const" and x[2] == ELEM(0)]
+                        if ix:
+                            tables.add(ix[0][1][1])
+                    n_pairs += 1
+                    good_key = k0 == ELEM(0) or (k0[0] == "index" and k0[1][0] == "const" and k0[2] == ELEM(0))
+                    good_val = v_[0] == "call" and v_[1] == SM.prim_get and len(v_[2]) >= 2 and strip_site(unclone_(v_[2][1])) == k0
+                    okp = okp and good_key and good_val
+        ctx.check(okp and n_pairs >= 1, "R16.9", "%s|summary-pairs-each-statistic-with-its-own-counter" % g.name,
+                  "the summary stores, under each statistic of the table, the value read for that same statistic", g.where())
+        stats_adt = [n_ for n_ in F.adts if n_.endswith("StatsType")]
+        allv = [v["name"] for v in F.adts[stats_adt[0]]["variants"]] if stats_adt else []
+        for tn in sorted(tables):
+            body = (F.raw.get("const_bodies") or {}).get(tn)
+            listed = []
+            if body:
+                for blk in body["blocks"]:
+                    for st in blk["stmts"]:
+                        if st["k"] == "assign" and st["rv"]["k"] == "agg" and st["rv"].get("adt") == (stats_adt[0] if stats_adt else None):
+                            listed.append(st["rv"].get("variant"))
+            ctx.check(bool(body) and sorted(listed) == sorted(allv), "R16.9", "%s|table-lists-every-statistic-once" % tn,
+                      "the table the summary walks lists every variant of the statistics enum exactly once", g.where(), "listed %s of %s" % (sorted(listed), sorted(allv)))
+        ctx.check(bool(tables), "R16.9", "%s|summary-walks-a-table" % g.name, "the summary is built from a constant table of the statistics", g.where())
+    ctx.floor("R16.9", "summary functions", len(summ), 1)
+
     # ---- R16.5 hit ratio ---------------------------------------------------------------------------
     rh = {n for n, v in SM.read.items() if v == "CacheHits"}
     rm = {n for n, v in SM.read.items() if v == "CacheMisses"}
@@ -331,6 +412,15 @@ def run(ctx):
         ctx.check(not bad and div_paths >= 1, "R16.5", "%s|zero-implies-no-hits" % f.name,
                   "hit_ratio returns 0 only on a path that established hits == 0, and hits/(hits+misses) otherwise (%d zero path(s), %d ratio path(s))" % (zero_paths, div_paths),
                   f.where(), "; ".join("%s %s" % (w, q.show()) for w, q in bad[:3]))
+
+
+def unclone_(e):
+    """through references, derefs, copies and clones: the value itself"""
+    from core import unclone
+    e = unclone(e)
+    while isinstance(e, tuple) and e and e[0] in ("ref", "deref") and len(e) >= 2 and isinstance(e[1], tuple):
+        e = unclone(e[1])
+    return e
 
 
 def is_negated_delta(amt, D):
